@@ -16,7 +16,19 @@ pub(crate) fn any_session(cids: &[u8]) -> Session {
         fcnt_up: kani::any(),
         fcnt_down: kani::any(),
         adr_ack_cnt: kani::any(),
+        #[cfg(feature = "certification")]
+        override_confirmed: if kani::any() { Some(kani::any()) } else { None },
+        #[cfg(feature = "certification")]
+        rx_app_cnt: kani::any(),
     }
+}
+#[cfg(feature = "certification")]
+fn cert_same(a: &Session, b: &Session) -> bool {
+    a.override_confirmed == b.override_confirmed && a.rx_app_cnt == b.rx_app_cnt
+}
+#[cfg(not(feature = "certification"))]
+fn cert_same(_a: &Session, _b: &Session) -> bool {
+    true
 }
 
 pub(crate) fn session_same(a: &Session, b: &Session) -> bool {
@@ -28,6 +40,7 @@ pub(crate) fn session_same(a: &Session, b: &Session) -> bool {
         && a.fcnt_up == b.fcnt_up
         && a.fcnt_down == b.fcnt_down
         && a.adr_ack_cnt == b.adr_ack_cnt
+        && cert_same(a, b)
 }
 
 pub(crate) fn noop_macs(
@@ -89,7 +102,13 @@ fn rx_step(ignore_mac: bool, shape: Option<(usize, u8)>) {
     let snr: i8 = kani::any();
     let mut dl: Vec<Downlink, 1> = Vec::new();
 
+    #[cfg(not(feature = "certification"))]
     let resp = s.handle_rx::<RXN, 1>(&mut region, &mut cfg, &mut rx, &mut dl, max_payload_len, snr, ignore_mac);
+    #[cfg(feature = "certification")]
+    let resp = {
+        let mut cert = crate::mac::certification::Certification::new();
+        s.handle_rx::<RXN, 1>(&mut region, &mut cfg, &mut cert, &mut rx, &mut dl, max_payload_len, snr, ignore_mac)
+    };
 
     // ---- independent reference --------------------------------------------------------------
     let foptslen = (frame[5] & 0x0f) as usize;
